@@ -646,6 +646,8 @@ func Route(w *load.World, c *core.Collector) {
 				}
 				key := "dest:" + load.FnKey(f)
 				switch {
+				case viaHash && destLeaf(w, st.Val, 0) == leafOther:
+					c.Add("ROUTE", key, core.Violation, w.At(in), "on some path the destination is not the RendezvousHash owner at all (a shortcut returns this node's own name or a fixed server): two nodes with the same server list then disagree about the owner", "C13", "C17")
 				case !viaHash:
 					c.Add("ROUTE", key, core.Violation, w.At(in), fmt.Sprintf("destination is not computed by RendezvousHash (origins %v)", o.Keys()), "C13", "C17")
 				case !fullList:
@@ -1298,8 +1300,25 @@ func Transfer(w *load.World, c *core.Collector) {
 	}
 	// record receiver: an entry is counted as delivered only after its Put succeeded
 	nCount := 0
+	// the handler's own literals, and those of the helpers it calls (the write transaction may have
+	// been moved into a method of its own)
+	recvRoots := map[*ssa.Function]bool{}
+	if h := findFn(w, "(*cluster.ClusterNode).RPCSetNodeKeyValue"); h != nil {
+		recvRoots[h] = true
+		for _, b := range h.Blocks {
+			for _, in := range b.Instrs {
+				if g := ssax.StaticModuleCallee(in); g != nil && load.PkgPath(g) == load.PkgPath(h) && g.Name() != "internalRoute" {
+					recvRoots[g] = true
+				}
+			}
+		}
+	}
 	for _, g := range clusterFns(w) {
-		if !strings.HasPrefix(load.FnKey(g), "(*cluster.ClusterNode).RPCSetNodeKeyValue$") {
+		root := g
+		for root.Parent() != nil {
+			root = root.Parent()
+		}
+		if g.Parent() == nil || !recvRoots[root] {
 			continue
 		}
 		var putOK []ssax.Edge
@@ -1364,6 +1383,41 @@ func Transfer(w *load.World, c *core.Collector) {
 			}
 		}
 	}
+	var openPath ssa.Value
+	if open != nil {
+		openPath = open.Call.Args[0]
+	} else {
+		// the file may be opened by a helper of the package that is handed the path
+		for _, b := range r.Blocks {
+			for _, in := range b.Instrs {
+				site, ok := in.(*ssa.Call)
+				if !ok {
+					continue
+				}
+				g := site.Call.StaticCallee()
+				if g == nil || !ssax.InModule(g) || load.PkgPath(g) != load.PkgPath(r) {
+					continue
+				}
+				for _, gb := range g.Blocks {
+					for _, gi := range gb.Instrs {
+						gc, ok := gi.(*ssa.Call)
+						if !ok || gc.Call.StaticCallee() == nil {
+							continue
+						}
+						if n := gc.Call.StaticCallee().String(); n == "os.OpenFile" || n == "os.Create" {
+							if prm, ok := peelToParam(gc.Call.Args[0]).(*ssa.Parameter); ok {
+								for i, q := range g.Params {
+									if q == prm && i < len(site.Call.Args) {
+										open, openPath = gc, site.Call.Args[i]
+									}
+								}
+							}
+						}
+					}
+				}
+			}
+		}
+	}
 	if hash == nil || write == nil || open == nil {
 		c.Add("TRANSFER", "receiver:anchors", core.Undecided, w.Position(r.Pos()), "open / write / checksum calls not all found in the receive handler", props...)
 		return
@@ -1371,7 +1425,7 @@ func Transfer(w *load.World, c *core.Collector) {
 	// checksum is of the file on disk, after the write
 	sameFile := false
 	if pa, _ := ssax.Path(hash.Call.Args[0]); true {
-		pb, _ := ssax.Path(open.Call.Args[0])
+		pb, _ := ssax.Path(openPath)
 		sameFile = pa == pb
 	}
 	flows := false
@@ -1471,25 +1525,59 @@ func Transfer(w *load.World, c *core.Collector) {
 		c.Add("TRANSFER", "anchor:main", core.Undecided, "", "main.main not found", props...)
 		return
 	}
-	var serve, sync, http ssa.Instruction
+	// where each step happens: in main itself, or inside a helper of package main that main calls
+	// (then the step is ordered by that call among main's statements, and within the helper)
+	type stepAt struct{ outer, inner ssa.Instruction }
+	steps := map[string]stepAt{}
+	nameOf := func(g *ssa.Function) string {
+		switch load.FnKey(g) {
+		case "(*cluster.ClusterNode).Serve":
+			return "serve"
+		case "(*cluster.ClusterNode).Sync":
+			return "sync"
+		case "httpapi.RunHTTPServer":
+			return "http"
+		}
+		return ""
+	}
 	for _, b := range mainFn.Blocks {
 		for _, in := range b.Instrs {
-			if call, ok := in.(*ssa.Call); ok {
-				if g := call.Call.StaticCallee(); g != nil {
-					switch load.FnKey(g) {
-					case "(*cluster.ClusterNode).Serve":
-						serve = in
-					case "(*cluster.ClusterNode).Sync":
-						sync = in
-					case "httpapi.RunHTTPServer":
-						http = in
+			call, ok := in.(*ssa.Call)
+			if !ok {
+				continue
+			}
+			g := call.Call.StaticCallee()
+			if g == nil {
+				continue
+			}
+			if n := nameOf(g); n != "" {
+				steps[n] = stepAt{in, nil}
+				continue
+			}
+			if ssax.InModule(g) && load.PkgPath(g) == load.PkgPath(mainFn) {
+				for _, gb := range g.Blocks {
+					for _, gi := range gb.Instrs {
+						if gc, ok := gi.(*ssa.Call); ok && gc.Call.StaticCallee() != nil {
+							if n := nameOf(gc.Call.StaticCallee()); n != "" {
+								steps[n] = stepAt{in, gi}
+							}
+						}
 					}
 				}
 			}
 		}
 	}
-	if serve != nil && sync != nil && http != nil && ssax.Precedes(serve, sync) && ssax.Precedes(sync, http) {
-		c.Add("TRANSFER", "startup-order", core.OK, w.At(sync), "", props...)
+	before := func(a, b stepAt) bool {
+		if a.outer == nil || b.outer == nil {
+			return false
+		}
+		if a.outer != b.outer {
+			return ssax.Precedes(a.outer, b.outer)
+		}
+		return a.inner != nil && b.inner != nil && ssax.Precedes(a.inner, b.inner)
+	}
+	if before(steps["serve"], steps["sync"]) && before(steps["sync"], steps["http"]) {
+		c.Add("TRANSFER", "startup-order", core.OK, w.At(steps["sync"].outer), "", props...)
 	} else {
 		c.Add("TRANSFER", "startup-order", core.Violation, w.Position(mainFn.Pos()), "start-up does not run RPC serving, then synchronisation, then the HTTP API in that order", props...)
 	}
@@ -3399,4 +3487,96 @@ func fileHashCoversFile(w *load.World, c *core.Collector) {
 	} else {
 		c.Add("TRANSFER", "filehash-whole-file", core.OK, w.Position(f.Pos()), "", props...)
 	}
+}
+
+type leafKind int
+
+const (
+	leafUnknown leafKind = iota
+	leafHash
+	leafOther
+)
+
+// destLeaf classifies what a destination value can be: RendezvousHash(...)[0] on every path
+// (leafHash), definitely something else on some path — a constant, the node's own host name
+// (leafOther) — or not resolvable (leafUnknown, left to the provenance clause).
+func destLeaf(w *load.World, v ssa.Value, depth int) leafKind {
+	if depth > 5 {
+		return leafUnknown
+	}
+	join := func(ks []leafKind) leafKind {
+		out := leafHash
+		for _, k := range ks {
+			switch k {
+			case leafOther:
+				return leafOther
+			case leafUnknown:
+				out = leafUnknown
+			}
+		}
+		if len(ks) == 0 {
+			return leafUnknown
+		}
+		return out
+	}
+	switch x := v.(type) {
+	case *ssa.Const:
+		return leafOther
+	case *ssa.UnOp:
+		if x.Op != token.MUL {
+			return leafUnknown
+		}
+		switch a := x.X.(type) {
+		case *ssa.IndexAddr:
+			if call, ok := a.X.(*ssa.Call); ok && call.Call.StaticCallee() != nil && load.FnKey(call.Call.StaticCallee()) == "cluster.RendezvousHash" {
+				return leafHash
+			}
+			return leafUnknown
+		case *ssa.FieldAddr:
+			if fieldOf(a) == "cluster.ClusterNode.MyHostname" {
+				return leafOther
+			}
+			return leafUnknown
+		case *ssa.Alloc:
+			if sv := ssax.SingleStore(a); sv != nil {
+				return destLeaf(w, sv, depth+1)
+			}
+			var ks []leafKind
+			for _, r := range *a.Referrers() {
+				if st, ok := r.(*ssa.Store); ok && st.Addr == ssa.Value(a) {
+					ks = append(ks, destLeaf(w, st.Val, depth+1))
+				}
+			}
+			return join(ks)
+		}
+		return leafUnknown
+	case *ssa.Index:
+		if call, ok := x.X.(*ssa.Call); ok && call.Call.StaticCallee() != nil && load.FnKey(call.Call.StaticCallee()) == "cluster.RendezvousHash" {
+			return leafHash
+		}
+		return leafUnknown
+	case *ssa.Phi:
+		var ks []leafKind
+		for _, e := range x.Edges {
+			ks = append(ks, destLeaf(w, e, depth+1))
+		}
+		return join(ks)
+	case *ssa.Call:
+		g := x.Call.StaticCallee()
+		if g == nil || !ssax.InModule(g) || len(g.Blocks) == 0 {
+			return leafUnknown
+		}
+		var ks []leafKind
+		for _, b := range g.Blocks {
+			if r, ok := b.Instrs[len(b.Instrs)-1].(*ssa.Return); ok && len(r.Results) == 1 {
+				ks = append(ks, destLeaf(w, ssax.ReturnOperand(r, 0), depth+1))
+			}
+		}
+		return join(ks)
+	case *ssa.Parameter:
+		if av := callerArg(w, x); av != nil {
+			return destLeaf(w, av, depth+1)
+		}
+	}
+	return leafUnknown
 }
